@@ -236,8 +236,9 @@ def r2_offset_discipline(ctx, sym):
     ctx.analysed_function(core, loc)
     # (locate() itself is executed by the offset rule below: a node of line 5 must be located on 5 + offset)
     vis = ctx.repo.module(TIFA_VISITOR)
-    from .c18 import line_offset_rule
+    from .c18 import line_offset_rule, tifa_cache_offset_rule
     line_offset_rule(ctx, sym, 'R2')
+    tifa_cache_offset_rule(ctx, sym, 'R2')
     # every feedback issued by TIFA gets its location from locate()
     n_issue = 0
     for m in (core, vis):
